@@ -26,6 +26,10 @@ def mtime_for(policy, graph, rel, variant, hist):
         order = sorted(wsgraphs.GRAPHS[graph].keys())
         return BASE_MTIME + 1000 * (order.index(rel) + 1) + 10 * wsgraphs.variant_index(graph, rel, variant)
     n_edits = sum(1 for op in hist if op[0] == 'edit')
+    if policy == 'recycled':
+        # mtimes alternate between two values whatever the content is (files restored from an archive / a branch switch):
+        # the third revision carries the mtime of the first
+        return mtime_for('content-bound', graph, rel, 'v0', []) + (10 if n_edits % 2 == 0 else 0)
     if policy == 'subsecond':
         # successive saves within one wall-clock second (the initial file sits at the start of that second)
         return mtime_for('content-bound', graph, rel, 'v0', []) + 0.125 * (n_edits + 1)
@@ -34,8 +38,9 @@ def mtime_for(policy, graph, rel, variant, hist):
 
 def init_state(graph, policy):
     def init(d):
-        ws = Workspace.create(d)
-        ws.write_config(['proj/*.py'], ['out/'], cache_enabled=False, name='config_nocache.yml')
+        globs = wsgraphs.INPUT_GLOBS.get(graph, ['proj/*.py'])
+        ws = Workspace.create(d, input_globs=tuple(globs))
+        ws.write_config(globs, ['out/'], cache_enabled=False, name='config_nocache.yml')
         seed_library_cache(ws)
         for rel, variants in wsgraphs.GRAPHS[graph].items():
             ws.write_source(rel, variants['v0'], mtime_for('content-bound', graph, rel, 'v0', []))
@@ -43,8 +48,14 @@ def init_state(graph, policy):
     return init
 
 
-def ops_of(graph):
+def ops_of(graph, policy='content-bound'):
     def f(hist):
+        if policy == 'recycled':
+            # a narrow alphabet so that depth 4 stays small: runs and edits of the base module only
+            # (every revision is run before the next edit: an edit whose mtime equals that of a revision that is still
+            # cached is an edit *without* mtime change, which the property does not cover)
+            rel = sorted(wsgraphs.GRAPHS[graph])[0]
+            return [['run-f']] + [['edit-run', rel, v] for v in wsgraphs.GRAPHS[graph][rel]]
         ops = [['run-f'], ['clear-cache'], ['run-f-nocache']]
         for rel, variants in wsgraphs.GRAPHS[graph].items():
             for v in variants:
@@ -98,6 +109,12 @@ def apply_op(graph, policy):
             clear_project_cache(ws)
         elif kind == 'edit':
             ws.write_source(op[1], wsgraphs.GRAPHS[graph][op[1]][op[2]], mtime_for(policy, graph, op[1], op[2], hist))
+        elif kind == 'edit-run':
+            n = sum(1 for o in hist if o[0] == 'edit-run')
+            ws.write_source(op[1], wsgraphs.GRAPHS[graph][op[1]][op[2]], mtime_for('content-bound', graph, op[1], 'v0', []) + (10 if n % 2 == 0 else 0))
+            r = ws.run(force=True)
+            if r[0] != 'ok':
+                return [(['run-fails', r[1], 'warm'], f'run -f failed: {r[1]}: {r[2]}')]
         return []
     return apply
 
@@ -248,16 +265,16 @@ def truncation_layer(ctx, state_dirs, graph, every_offset: bool):
 
 def run(ctx):
     import rogw.tranp.bin.transpile  # noqa
-    configs = [('pair', 'content-bound'), ('chain3', 'content-bound'), ('chain3', 'monotone'), ('pair', 'subsecond')] if ctx.quick else \
-        [('pair', 'content-bound'), ('pair', 'monotone'), ('chain3', 'content-bound'), ('chain3', 'monotone'), ('diamond4', 'content-bound'), ('pair', 'subsecond'), ('chain3', 'subsecond')]
+    configs = [('pair', 'content-bound'), ('chain3', 'content-bound'), ('prefix3', 'monotone'), ('pair', 'subsecond'), ('pair', 'recycled')] if ctx.quick else \
+        [('pair', 'content-bound'), ('pair', 'monotone'), ('chain3', 'content-bound'), ('chain3', 'monotone'), ('chain3p', 'monotone'), ('prefix3', 'monotone'), ('diamond4', 'content-bound'), ('pair', 'subsecond'), ('chain3', 'subsecond'), ('pair', 'recycled')]
     total = {'states': 0, 'transitions': 0, 'truncations': 0}
     per = {}
     for graph, policy in configs:
         root = scratch_root('c05-')
-        depth = (3 if ctx.quick else 5) if policy == 'content-bound' else (2 if ctx.quick else 3)
+        depth = (3 if ctx.quick else 5) if policy == 'content-bound' else (4 if policy == 'recycled' else (2 if ctx.quick else 3))
         _lib.clear()
         try:
-            stats, viols = wsexplore.explore(ctx, root, init_state(graph, policy), ops_of(graph), apply_op(graph, policy), check_state(graph), depth, label=f'{graph}/{policy}')
+            stats, viols = wsexplore.explore(ctx, root, init_state(graph, policy), ops_of(graph, policy), apply_op(graph, policy), check_state(graph), depth, label=f'{graph}/{policy}')
             # crash points on a few representative reachable states that hold project cache files
             sdirs = []
             for name in sorted(os.listdir(os.path.join(root, 'states')), key=lambda s: int(s[1:])):
